@@ -215,10 +215,12 @@ def fmt_plan(plan):
     return "%d %s" % (len(plan), " ".join("x" if v is None else repr(v) for v in plan)) if plan else "0"
 
 
-def bjob(jid, name, seed, plans, pin=(-1, 0.5), tplan=None, betaplan=None):
+def bjob(jid, name, seed, plans, pin=(-1, 0.5), tplan=None, betaplan=None, pin_len=None):
     s = "B %s %s %d %d %r %d %s" % (jid, name, seed, pin[0], pin[1], len(plans), " ".join(fmt_plan(p) for p in plans))
     if tplan:
         s += " T " + fmt_plan(tplan)
     if betaplan:
         s += " E " + fmt_plan(betaplan)
+    if pin_len:
+        s += " L %d" % pin_len
     return s
